@@ -2453,6 +2453,10 @@ def verify_hyperparameters(lattice_sizes,
       if not isinstance(dim1, int) or not isinstance(dim2, int):
         raise ValueError("Joint monotonicity constraint dimensions must be "
                          "integers. Seeing dimensions %s, %s" % (dim1, dim2))
+      if dim1 == dim2:
+        raise ValueError("Joint monotonicity constraint must be between two "
+                         "different dimensions. Seeing dimensions %s, %s" %
+                         (dim1, dim2))
 
   if joint_unimodalities is not None:
     for single_constraint in joint_unimodalities:
